@@ -14,6 +14,11 @@ BAD_REPLIES = {
     "huge-string": bytes([1 << 2]) + b"\xfe\xff\xff\xff",
     "missing-tag-end": bytes([1 << 2]) + dc.vstr("p.txt") + dc.vstr("c"),
     "garbage": b"\x13\x37 not a reply",
+    "invalid-utf8-message": b"\x00" + bytes([1 << 2]) + b"\x00\x01" + bytes([2 << 2, 0xc3, 0x28]) + b"\xfc",
+    "invalid-utf8-source": b"\x00" + bytes([1 << 2]) + b"\x01\x01" + dc.vstr("m") + bytes([2 << 2, 0xff, 0xfe]) + b"\xfc",
+    "invalid-utf8-source-after-file": bytes([1 << 2]) + dc.vstr("p.txt") + dc.vstr("c") + b"\xfc" + bytes([1 << 2]) + b"\x01\x00" + dc.vstr("m") + bytes([3 << 2, 0xe2, 0x82, 0x28]) + b"\xfc",
+    "truncated-source": b"\x00" + bytes([1 << 2]) + b"\x01\x02" + dc.vstr("m") + bytes([9 << 2]) + b"abc",
+    "missing-source": b"\x00" + bytes([1 << 2]) + b"\x01\x02" + dc.vstr("m"),
 }
 
 
